@@ -822,7 +822,32 @@ def op_repeat(x, y):
     raise Err("* needs a sequence and an int")
 
 
+def op_persist(x, u):
+    """every derived value is what its own expression denotes, whatever is computed afterwards"""
+    for t in (str, list, tuple):
+        if isinstance(x, t) and isinstance(u, t):
+            break
+    else:
+        raise Err("operands of different sequence types")
+    a = x[:2]
+    b = a + u
+    c = a + u[:1]
+    d = x[1:]
+    e = d + u
+    f = x + u
+    g = f[:len(x)] + u
+    h = x * 1
+    i = h + u
+    j = (x + u)[::2]
+    k = j + u
+    m = j + x
+    n = x[:0] + u
+    o = n + x
+    return [x, u, a, b, c, d, e, f, g, h, i, j, k, m, n, o]
+
+
 OPS = {
+    "persist": op_persist,
     "slice": op_slice,
     "index": op_index,
     "find": op_find_checked,
